@@ -12,6 +12,10 @@ SRV_NOTE = ('Trusted: TLC, CPython, python-engineio 4.14 (real server side, '
             'the constants of the configurations named in the evidence.')
 
 CHECKS = {
+ 'C01': dict(
+    technique='TLA+ Packet.tla: the v5 frame grammar (RefFrame) and the code-shaped header reading (Scan) at character level, trees with depth-first placeholder numbering; TLC proves round trip on its universe, dumps it, and judges every case recorded from the real Packet codec (PacketCases.tla)',
+    text='G1: on 1179 packets built from a hostile little alphabet (digits next to "-" "," "/" "?" in namespaces, event names and strings; ids up to 100 digits; byte strings nested in lists and dicts) TLC checks Scan(RefFrame(p)) = header(p) with "/" implied and the query string dropped, Reconstruct(Deconstruct(d)) = d with attachments in production order, and that byte strings are accepted only for events and acks. G2: TLC dumps that universe; every packet of it plus seeded random packets (unicode incl. non-BMP and control characters, floats, 64-bit and 100-digit numbers, nested byte strings) is (enc) encoded by the real Packet and compared character by character with RefFrame, attachments in order, and (dec) encoded by the independent specification-derived codec harness/refcodec.py - which TLC requires to equal RefFrame - and decoded by the real Packet with add_attachment per attachment: type, namespace, id, payload tree and the completion flags must be what the spec says; (scan) mutated ASCII frames: the header reading and the refusals of Packet.decode must be Scan. Coverage of the universe by the cases is checked by TLC.',
+    ref='4/C01', note='Trusted: TLC; the json module for the text of JSON scalars (a scalar travels with its text); msgpack is exercised end to end in C02, not here. Binary packets are built as the library builds them (EVENT/ACK promoted by the constructor).'),
  'C03': dict(
     technique='TLA+ SioServer.tla model-checked by TLC; exhaustive transition-graph validation of Manager/AsyncManager via Server/AsyncServer',
     text='G1: TLC checks C03_Recipients (code-shaped recipient computation = statement-shaped addressed set for EVERY emit of the alphabet in EVERY reachable state), C03_RoomsListing, C03_NoGhostsOfTheDeparted on the spec. G2: from every reachable abstract state of the real Server and AsyncServer every alphabet action is executed and TLC re-executes the edge with the spec, comparing the whole projected manager state, every packet per transport, results. G3: state counts equal, so the two graphs are equal inside the scope.',
